@@ -123,6 +123,15 @@ pub fn run(ws: &[&str]) -> String {
             let d: StandardDeviceAuthorizationResponse = serde_json::from_value(doc).unwrap();
             fmt(pretty, &d)
         }
+        "dev_resp_nouri" => {
+            // only verification_uri_complete (carrying the user code in path and fragment) is sent
+            let complete = format!("https://v.example/device/{}?c={}#user_code={}", q.s[2], q.s[2], q.s[2]);
+            let doc = serde_json::json!({"device_code": q.s[1], "user_code": q.s[2], "verification_uri_complete": complete, "expires_in": 1800});
+            match serde_json::from_value::<StandardDeviceAuthorizationResponse>(doc) {
+                Ok(d) => fmt(pretty, &(Some(&d), vec![&d])),
+                Err(_) => "rejected".to_string(),
+            }
+        }
         "revocable" => fmt(pretty, &StandardRevocableToken::RefreshToken(RefreshToken::new(q.s[1].clone()))),
         "nest" => fmt(
             pretty,
